@@ -720,6 +720,12 @@ func literalTextRule(r *Run, rule string) {
 				r.Ok(rule, f.Name(), con, w.Pos(nd.Pos()), "written to the output as it is")
 				return true
 			}
+			if c, ok := w.Parent(nd).(*ast.CallExpr); ok {
+				if pi, isRaw := w.rawWriteHelpers()[calleeOf(info, c)]; isRaw && pi < len(c.Args) && unparen(c.Args[pi]) == ast.Expr(nd.(ast.Expr)) {
+					r.Ok(rule, f.Name(), con, w.Pos(nd.Pos()), "written to the output as it is (through a helper that writes its string parameter)")
+					return true
+				}
+			}
 			if bc, ok := w.Parent(nd).(*ast.CallExpr); ok && isBytesOfString(w, info, bc) {
 				if c, ok := w.Parent(bc).(*ast.CallExpr); ok && isBuilderWrite(info, c) {
 					r.Ok(rule, f.Name(), con, w.Pos(nd.Pos()), "written to the output as it is")
